@@ -11,6 +11,7 @@ from vp import core
 
 from props import c04_ir as I
 from props import c05_gen as G
+from props import c05_perturb as P
 from props import c05_rt as R
 
 META = {
@@ -33,7 +34,14 @@ META = {
         "same instance by FormatProgram.parse, and the property itself (custom print → parse in a fresh Context "
         "≡ generic print → parse, own canonical serialisation) is demanded directly on every wfD format.  The same "
         "direct oracle runs over every operation of every parseable+verifying chunk of tests/**/*.mlir with all "
-        "dialects registered (custom form incl. hand-written print/parse), and over pass outputs."
+        "dialects registered (custom form incl. hand-written print/parse; every file, every chunk, in every tier), "
+        "over variants of corpus operations built through the generic form (one optional/default-valued property "
+        "or attribute put into a state another corpus instance of the class is in; per-argument/per-result "
+        "attributes of function-like operations on none / all / a strict subset of the positions, declarations "
+        "with 0/1/2 results), over a fixed catalogue of generic-form texts (vector.transfer_read/write: scalar vs "
+        "vector element type × in_bounds × permutation_map; func.func definitions with partly decorated arguments "
+        "and results), and over pass outputs.  A corpus chunk that parsed and verified at the pinned state "
+        "(harness/corpus/C05/verified_chunks.json) and no longer does is a failing input."
     ),
     "technique": "Lean 4 proof on the directive-interpreter model + differential correspondence on generated IRDL ops + direct custom-vs-generic round-trip oracle over generated ops, the .mlir corpus and pass outputs",
     "level_note": (
@@ -50,7 +58,10 @@ META = {
         "listed as known finding (optional unique-base/typed attribute variable); evidence lists how many of the "
         "registered formats are inside the proved fragment / satisfy wfD.  Group consistency "
         "(what an untaken group does not print is empty/default) is the op author's verifier obligation and is a "
-        "hypothesis; generated instances satisfy it.  Equivalence as the quantifier says: a property/attribute "
+        "hypothesis; generated instances satisfy it.  Property perturbation only uses per-entry states witnessed "
+        "in the corpus for that op class (an entry is removed only if some instance lacks it), skips the arity-bound "
+        "arg_attrs/res_attrs (built with the right length by the function-like leg) and operations inside regions "
+        "their parent's custom form does not print.  Equivalence as the quantifier says: a property/attribute "
         "equal to its declared default ≡ absent, inherent attribute in the dictionary ≡ property; name hints and "
         "locations are not compared; resource handle suffixes are ignored (C04 finding).  Corpus chunks that do not "
         "parse/verify, or whose generic form does not round-trip (C04's matter), are skipped.  Trusted: the "
@@ -61,7 +72,9 @@ META = {
         "wfD holds and the format has ≥1 optional group or variadic/optional variable or default-valued/optional "
         "attribute, distinct by (format string, printed text).  catalogue: fixed minimal formats incl. the minimal "
         "failing inputs of every repaired defect × all small instances.  corpus/pass: evaluated = verified chunks; "
-        "non-trivial = chunk contains ≥1 operation printed with a custom syntax, distinct by (file, chunk[, pass])."
+        "non-trivial = chunk contains ≥1 operation printed with a custom syntax, distinct by (file, chunk[, pass]).  "
+        "perturb/funclike: evaluated = variants that verify; all are non-trivial, distinct by (op class, file, chunk, "
+        "op index, edit).  text-catalogue: every entry, distinct by name."
     ),
     "trusted_base": [
         "hand-written Lean model XdslModel/DeclFormat.lean (fixed FormatProgram semantics at token level), tied by correspondence",
@@ -627,32 +640,48 @@ def check_module(ctx: core.Ctx, module, case: dict[str, Any], family: str) -> bo
         c["isolated"] = f.isolated
         if f.isolated:
             c["generic_text"] = f.rt.generic[:3000]
-        ctx.fail(f.call_site, f.signature, c,
-                 f"{f.op_name}: {f.rt.detail}"[:500],
-                 {"stage": f.rt.stage, "custom": f.rt.custom[:1500], "detail": f.rt.detail[:600]}, None)
+        for sig in P.refine_signatures(f):
+            ctx.fail(f.call_site, sig, c,
+                     f"{f.op_name}: {f.rt.detail}"[:500],
+                     {"stage": f.rt.stage, "custom": f.rt.custom[:1500], "detail": f.rt.detail[:600]}, None)
         ctx.count(f"{family}.fail.{f.rt.stage}")
     return False
 
 
-def run_corpus(ctx: core.Ctx, pass_names: list[str], pass_stride: int, reserve: float) -> None:
+def run_corpus(ctx: core.Ctx, pass_names: list[str], pass_stride: int, reserve: float, ix: P.Index | None = None) -> None:
+    """EVERY chunk of every tests/**/*.mlir file, in every tier (no sampling)"""
     from props import c04
 
     chunks = I.corpus_chunks()
     ctx.count("corpus.chunks", len(chunks))
+    ctx.count("corpus.files", len({p for p, _, _ in chunks}))
     passes = c04.load_passes(pass_names)
+    baseline = P.load_baseline()
+    if not baseline:
+        raise core.InfraError(f"baseline of verified corpus chunks missing: {P.BASELINE}")
     nmod = 0
+    files_reached: set[str] = set()
     for k, (path, idx, text) in enumerate(chunks):
         if ctx.time_left() < reserve:
             ctx.count("corpus.skipped_for_time", len(chunks) - k)
             break
-        m = I.parse_verified(text)
+        m, why = P.parse_verify(text)
         if m is None:
             ctx.count("corpus.unparsed_or_unverified")
+            if baseline.get(P.chunk_key(path, idx)) == P.text_hash(text):
+                # it parsed and verified at the pinned state: a parser/verifier stopped accepting it
+                ctx.ev()
+                P.report_lost_chunk(ctx, path, idx, text, why)
             continue
         nmod += 1
+        files_reached.add(path)
         ctx.count("corpus.verified")
+        if P.chunk_key(path, idx) not in baseline:
+            ctx.count("corpus.verified_but_not_in_baseline")
         if has_custom_op(m):
             ctx.nt(("corpus", path, idx))
+        if ix is not None:
+            ix.add_module(m, path, idx)
         check_module(ctx, m, {"family": "corpus", "file": path, "chunk": idx}, "corpus")
         if passes and (k % pass_stride == 0):
             for pname, pcls in passes:
@@ -666,6 +695,7 @@ def run_corpus(ctx: core.Ctx, pass_names: list[str], pass_stride: int, reserve: 
                 ctx.programs += 1
                 ctx.nt(("pass", pname, path, idx))
                 check_module(ctx, out, {"family": "pass", "pass": pname, "file": path, "chunk": idx}, "pass")
+    ctx.count("corpus.files_with_a_verified_chunk", len(files_reached))
     ctx.sample({"family": "corpus", "verified_modules": nmod})
 
 
@@ -684,11 +714,17 @@ def run(ctx: core.Ctx) -> None:
     timed("registry", run_registry, ctx)
     from props import c04
 
+    timed("text_catalogue", P.run_text_catalogue, ctx, check_module)
+    ix = P.Index()
     if ctx.tier == "quick":
-        timed("generated", run_generated, ctx, 1000, 4, reserve=60)
-        timed("corpus", run_corpus, ctx, [], 1, reserve=3)
+        timed("generated", run_generated, ctx, 1000, 4, reserve=90)
+        timed("corpus", run_corpus, ctx, [], 1, reserve=30, ix=ix)
+        timed("funclike", P.run_funclike, ctx, ix, check_module, per_class=2, reserve=12)
+        timed("perturb", P.run_perturb, ctx, ix, check_module, per_class=2, max_module_ops=40, reserve=3)
     else:
-        timed("corpus", run_corpus, ctx, c04.PASSES_THOROUGH, 1, reserve=400)
+        timed("corpus", run_corpus, ctx, c04.PASSES_THOROUGH, 1, reserve=500, ix=ix)
+        timed("funclike", P.run_funclike, ctx, ix, check_module, per_class=8, reserve=420)
+        timed("perturb", P.run_perturb, ctx, ix, check_module, per_class=6, max_module_ops=400, reserve=300)
         timed("generated", run_generated, ctx, 40000, 5, reserve=20)
     ctx.extra["timing_s"] = timing
     ctx.exhaustive = True
@@ -730,7 +766,16 @@ def replay(ctx: core.Ctx, body: dict) -> int:
         bad = o[-1].startswith("some ") and real != o[-1][5:]
         print("correspondence", "BROKEN" if bad else "holds", "on this case")
         return 1 if bad else 0
-    elif fam in ("corpus", "pass"):
+    elif fam == "lost-chunk":
+        text = (core.REPO / case["file"]).read_text().split("// -----")[case["chunk"]]
+        m, why = P.parse_verify(text)
+        if m is None:
+            print(f"{case['file']} chunk {case['chunk']} no longer {why[0]}s: {core.exc_name(why[1])}: {str(why[1]).strip()[-600:]}")
+            print("property FAILS on this case (the chunk parsed and verified at the pinned state)")
+            return 1
+        print("the chunk parses and verifies")
+        return 0
+    elif fam in ("corpus", "pass", "perturb", "funclike", "text-catalogue"):
         if case.get("generic_text"):
             print("isolated operation (generic form):\n" + case["generic_text"])
             try:
@@ -738,6 +783,9 @@ def replay(ctx: core.Ctx, body: dict) -> int:
             except Exception as e:  # noqa: BLE001
                 print("isolated text no longer parses:", e)
                 m = None
+        elif fam in ("perturb", "funclike", "text-catalogue"):
+            print("case without an isolated operation:", json.dumps({k: v for k, v in case.items()})[:600])
+            m = None
         else:
             text = (core.REPO / case["file"]).read_text().split("// -----")[case["chunk"]]
             if fam == "pass":
